@@ -168,6 +168,12 @@ def p_auxwire(ctx):
     return m.run(ctx)
 
 
+@plan("C14")
+def p_auxlife(ctx):
+    from . import p_auxlife as m
+    return m.run(ctx)
+
+
 def replay_file(gtirb, prop, path):
     v = json.load(open(path))
     consts = configs.get(v["config"])
